@@ -99,6 +99,17 @@ func newResult(t reflect.Type, opts resultOptions) (result, error) {
 					return nil, newErrInvalidInput(
 						fmt.Sprintf("invalid dig.As: %v does not implement %v", t, ifaceType), nil)
 				}
+				// An interface named twice feeds its group once.
+				seen := false
+				for _, at := range asTypes {
+					if at == ifaceType {
+						seen = true
+						break
+					}
+				}
+				if seen {
+					continue
+				}
 				asTypes = append(asTypes, ifaceType)
 			}
 			if len(asTypes) > 0 {
